@@ -65,6 +65,22 @@ func RoundTrip(src []byte, compact bool) (string, []byte) {
 	return "differs", txt
 }
 
+// CommentTexts returns the literals of the comment tokens of src in order (file mode).
+func CommentTexts(src []byte) []string {
+	l := newLexer(src, false)
+	var out []string
+	for i := 0; i < len(src)+3; i++ {
+		t := l.NextToken()
+		if t.Type() == token.LINECOMMENT || t.Type() == token.BLOCKCOMMENT {
+			out = append(out, t.Literal())
+		}
+		if t.Type() == token.EOF || t.Type() == token.EOL {
+			break
+		}
+	}
+	return out
+}
+
 // KnownPatterns lists the constructs present in a tree that are recorded known findings of the
 // formatter (see known_findings.json); a round-trip failure of a program containing one of them is
 // attributed to it, any other failure is reported under a generic (unlisted) signature.
